@@ -42,6 +42,9 @@ func NormFn(kind int) func(string, int) float32 {
 	}
 }
 
+// (not inlined: inlining would give every call site its own copy of the literal)
+//
+//go:noinline
 func boosted(boost float32) func(string, int) float32 {
 	return func(_ string, l int) float32 { return boost / float32(1+l) }
 }
